@@ -342,20 +342,21 @@ Definition hook_return (pl : plan) (r : rs) : rs :=
   | HErr => add_err r KGeneric
   end.
 
-(* updateNodePoolRegistrationHealth as far as it influences the NodeClaim's reconcile *)
-Definition pool_reg (k : cfg) (pl : plan) (r : rs) : rs :=
+Definition registered_now (r : rs) : rs :=
+  set_im r (cl_nn (cl_rltt (cl_r (r_im r) RTrue) (r_now r)) true).
+
+(* updateNodePoolRegistrationHealth, then SetTrue(Registered): the NodePool is updated FIRST (fix 40852abfb);
+   on a conflict or error the claim is not marked Registered in this reconcile *)
+Definition pool_then_registered (k : cfg) (pl : plan) (r : rs) : rs :=
   if k_pool k then
     let w := f_pool_reg pl in
     let r := add_eff r (EPoolReg w) in
     match w with
-    | WOk | WNotFound => r
+    | WOk | WNotFound => registered_now r
     | WConflict => add_res r (QAfter 0)
     | WErr => add_err r KServer
     end
-  else r.
-
-Definition registered_now (r : rs) : rs :=
-  set_im r (cl_nn (cl_rltt (cl_r (r_im r) RTrue) (r_now r)) true).
+  else registered_now r.
 
 Definition registration (k : cfg) (pl : plan) (r : rs) : rs :=
   match c_r (r_im r) with
@@ -371,7 +372,7 @@ Definition registration (k : cfg) (pl : plan) (r : rs) : rs :=
           let n1 := nd_sync k n in
           let r := if ok then r else set_im r (cl_r (r_im r) RHookPending) in
           let n2 := if ok then nd_registered n1 else n1 in
-          let cont (r : rs) : rs := if ok then pool_reg k pl (registered_now r) else hook_return pl r in
+          let cont (r : rs) : rs := if ok then pool_then_registered k pl r else hook_return pl r in
           if node_eqb n n2 then cont r
           else
             let w := f_npatch_reg pl in
@@ -458,8 +459,10 @@ Definition liveness (k : cfg) (pl : plan) (r : rs) : rs :=
         (* Launched is Unknown: its lastTransitionTime is the creation time = 0 *)
         let d := k_lt k - r_now r in
         if 0 <? d then add_res r (QAfter d)
-        else live_site k (f_pool_live1 pl) (f_del_live1 pl) r
-               (live_registration k (f_pool_live2 pl) (f_del_live2 pl))
+        else
+          (* after the launch-timeout delete Liveness returns (fix 3cbc43e89); f_pool_live2 / f_del_live2
+             are no longer consulted *)
+          live_site k (f_pool_live1 pl) (f_del_live1 pl) r (fun r => r)
     end
   end.
 
